@@ -1,6 +1,6 @@
 (** C10 — timers respect their period / delay, die with the actor and never prolong it.
     Statements only; proofs live in Inv/. *)
-From Hannibal Require Import Model.Sys Inv.Mailbox Inv.Step Inv.Loop Inv.Timers Inv.C06.
+From Hannibal Require Import Model.Sys Inv.Mailbox Inv.Step Inv.Loop Inv.Timers Inv.C06 Inv.Reach Inv.C10 Chk.C10.
 
 (** A timer submits its message only when its sleep is over ... *)
 Theorem C10_not_early :
@@ -36,3 +36,73 @@ Theorem C10_none_after_death :
   forall e, In e tr -> (forall o, e <> EvTick a k o) /\ e <> EvExec a k.
 Proof. exact aborted_never_fires. Qed.
 Print Assumptions C10_none_after_death.
+
+(** The schedule, on every execution the model accepts (simulation to the machine of Chk/C10.v):
+    the k-th delivery of an [interval] is submitted at exactly registration + k * period — k
+    deliveries after k periods, never two within one period; consecutive deliveries of an
+    [interval_with] are at least one period apart (its waiting submit may be parked on a full
+    mailbox, after which it sleeps a full period again); [delayed_send] and [delayed_exec] fire
+    at most once, at exactly registration + delay. *)
+Theorem C10_schedule : forall tr, accepts tr = true -> chk_C10 tr = true.
+Proof. exact accepts_chk_C10. Qed.
+Print Assumptions C10_schedule.
+
+(** What "fires" means in that machine, spelled out: the check made at every tick. *)
+Theorem C10_fire_rule :
+  forall now r, fire_ok now r = true ->
+    match r_kind r with
+    | TInterval => now = r_t0 r + S (r_n r) * r_d r
+    | TIntervalWith => r_last r + r_d r <= now
+    | TDelayedSend | TDelayedExec => r_n r = 0 /\ now = r_t0 r + r_d r
+    end.
+Proof.
+  intros now r H. unfold fire_ok in H. destruct (r_kind r).
+  - now apply Nat.eqb_eq.
+  - now apply Nat.leb_le.
+  - apply andb_true_iff in H. destruct H as [H1 H2]. split; now apply Nat.eqb_eq.
+  - apply andb_true_iff in H. destruct H as [H1 H2]. split; now apply Nat.eqb_eq.
+Qed.
+Print Assumptions C10_fire_rule.
+
+(** In every reachable state a terminated actor has every timer aborted (so, with
+    [C10_none_after_death], nothing of it ever fires again) ... *)
+Theorem C10_dead_actor_has_no_live_timer :
+  forall tr s a x, run init tr = Acc s -> actors s a = Some x -> a_phase x = PhDone ->
+  Forall (fun t => t_aborted t = true) (a_timers x).
+Proof. intros tr s a x H Hx Hd. exact (done_aborted_run _ _ _ done_aborted_init H _ _ Hx Hd). Qed.
+Print Assumptions C10_dead_actor_has_no_live_timer.
+
+(** ... and a run can only end (the executor has nothing runnable and nobody sleeps) in a state
+    where every timer task of every terminated actor has ended — none is leaked — and no timer of
+    a live actor is still waiting to fire: a due timer of a live actor does fire. *)
+Theorem C10_nothing_left_when_the_run_ends :
+  forall tr s s', run init tr = Acc s -> step s EvQuiesce = Acc s' ->
+  forall a x k t, actors s a = Some x -> nth_error (a_timers x) k = Some t ->
+    (a_phase x = PhDone -> t_st t = TsEnded)
+    /\ (a_phase x <> PhDone -> t_aborted t = true \/ t_st t = TsEnded \/ exists o, t_st t = TsParked o).
+Proof. intros tr s s' H. apply quiesce_timers. exact (listed_run _ _ _ listed_init H). Qed.
+Print Assumptions C10_nothing_left_when_the_run_ends.
+
+Example C10_acceptor_rejects :
+  let c := {| sc_bound := None; sc_timeout := None; sc_failto := false; sc_strat := RestartOnly;
+              sc_stream := false; sc_entry := 2; sc_ty := 0 |} in
+  (* an interval of period 10 registered at 0: ticks at 10 and 20 are fine ... *)
+  chk_C10 [EvSpawn 0 c; EvTimerReg 0 0 TInterval 10; EvClock 10; EvTick 0 0 1; EvClock 20; EvTick 0 0 2] = true
+  (* ... a late tick, two ticks in one period, an early one are not *)
+  /\ chk_C10 [EvSpawn 0 c; EvTimerReg 0 0 TInterval 10; EvClock 11; EvTick 0 0 1] = false
+  /\ chk_C10 [EvSpawn 0 c; EvTimerReg 0 0 TInterval 10; EvClock 10; EvTick 0 0 1; EvTick 0 0 2] = false
+  /\ chk_C10 [EvSpawn 0 c; EvTimerReg 0 0 TIntervalWith 10; EvClock 10; EvTick 0 0 1; EvClock 19; EvTick 0 0 2] = false
+  (* a delayed_send fires once, a delayed_exec never "ticks" *)
+  /\ chk_C10 [EvSpawn 0 c; EvTimerReg 0 0 TDelayedSend 5; EvClock 5; EvTick 0 0 1; EvClock 10; EvTick 0 0 2] = false
+  /\ chk_C10 [EvSpawn 0 c; EvTimerReg 0 0 TDelayedExec 5; EvClock 5; EvTick 0 0 1] = false
+  /\ chk_C10 [EvSpawn 0 c; EvTimerReg 0 0 TDelayedExec 5; EvClock 5; EvExec 0 0] = true.
+Proof. vm_compute. repeat split. Qed.
+
+(** the hypotheses of [C10_schedule] are met by a run with a parked interval_with *)
+Example C10_model_accepts_a_timer_run :
+  let c := {| sc_bound := None; sc_timeout := None; sc_failto := false; sc_strat := RestartOnly;
+              sc_stream := false; sc_entry := 2; sc_ty := 0 |} in
+  accepts [EvSpawn 0 c; EvHandle 0 0 KAddr; EvCbBegin 0 CbStarted; EvTimerReg 0 0 TInterval 10;
+           EvCbEnd 0 CbStarted CbOk; EvTimerSleep 0 0 10; EvClock 10; EvTick 0 0 1; EvTimerSleep 0 0 10;
+           EvDeq 0 PkTask; EvHBegin 0 1; EvHEnd 0 1 HCompleted; EvClock 20; EvTick 0 0 2] = true.
+Proof. vm_compute. reflexivity. Qed.
